@@ -168,11 +168,13 @@ def _mer_tensors(case):
         ref = torch.tensor(case["ref"], dtype=torch.long).reshape(N, R)
         ref = ref if bf else ref.t().contiguous()
     logp = torch.tensor(case["logp"], dtype=torch.float32).reshape(N, M)
-    # 'mlayout' (not generated: see corpus/C02/*.pending and the report): the same logical hyp / 3-D ref as a slice of
-    # a larger buffer ('offset') or with the batch and sample dimensions swapped in storage ('swap')
+    # 'mlayout': the same logical hyp / 3-D ref as a slice of a larger buffer ('offset') or with the batch and sample
+    # dimensions swapped in storage ('swap') - non-contiguous inputs (raised RuntimeError before fix F36)
     ml = case.get("mlayout")
 
     def relayout(t):
+        if ml and t.dim() == 2:
+            return t.t().contiguous().t()
         if ml == "offset":
             buf = torch.zeros([d + 1 for d in t.shape], dtype=t.dtype)
             buf[1:, 1:, 1:] = t
@@ -181,10 +183,7 @@ def _mer_tensors(case):
             d0, d1 = (0, 1) if bf else (1, 2)
             return t.transpose(d0, d1).contiguous().transpose(d0, d1)
         return t
-    hyp = relayout(hyp)
-    if case["ref3"]:
-        ref = relayout(ref)
-    return logp, ref, hyp
+    return relayout(logp), relayout(ref), relayout(hyp)
 
 
 def _fn_mer(case):
@@ -820,6 +819,7 @@ def gen_entry_layout(chk, n_str, n_mer):
         if c["entry"] == "sparse":
             c["keep"] = [k for k in DEFAULTS["mer"] if rng.random() < 0.3]
         c["history"] = rng.random() < 0.5
+        c["mlayout"] = rng.choice([None, "offset", "swap", "swap"])
         c["stream"] = "mer-entry"
         cases.append(c)
     return cases
@@ -939,7 +939,7 @@ def _fails(chk, case):
 
 def _cands_mer(case):
     N, M, R, H = _mdims(case)
-    for key in ("history", "entry"):
+    for key in ("history", "entry", "mlayout"):
         if case.get(key):
             yield {k: v for k, v in case.items() if k != key}
     for n in range(N):
@@ -1057,8 +1057,7 @@ def run(chk, cases=None):
                         "generated cases); log_probs in [-2, 2], shifted by -90..-1200 (joint/mixed regimes) or scaled by 100 (far regime)",
                         "zero-width tensors are in the input space only without eos (with eos _lens_from_eos raises)",
                         "the batch dimension of the model is a map over columns; independence across the batch is covered "
-                        "by the correspondence and the single-column metamorphic relation",
-                        "hyp / ref handed to minimum_error_rate_loss are contiguous (the code calls .view)"]
+                        "by the correspondence and the single-column metamorphic relation"]
     replaying = cases is not None
     cases = cases if cases is not None else gen_cases(chk)
     outs, terms, streams = [], [], []
@@ -1096,7 +1095,7 @@ def run(chk, cases=None):
         chk.count("empty_hyp_pairs", sum(1 for _, h in prs if not _cut(h, e["eos"], e["include_eos"])))
         chk.count("entry=" + (c.get("entry") or "legacy"))
         chk.count("layout=" + "/".join(c.get("layout") or ("contig", "contig")))
-        for key in ("history", "alias", "ids", "numeric"):
+        for key in ("history", "alias", "ids", "numeric", "mlayout"):
             if c.get(key):
                 chk.count(key + "=" + str(c[key]))
         if c.get("scale"):
